@@ -1513,6 +1513,9 @@ func ParseByteRange(byteRange []byte, contentLength int) (startPos, endPos int, 
 		if err != nil {
 			return 0, 0, err
 		}
+		if v == 0 {
+			return 0, 0, fmt.Errorf("byte range %q has zero suffix length", byteRange)
+		}
 		if contentLength <= 0 {
 			return 0, 0, fmt.Errorf("byte range %q is invalid for empty content", byteRange)
 		}
